@@ -320,7 +320,8 @@ func (self *BinaryConv) unmarshalMap(ctx context.Context, resp http.ResponseSett
 		return wrapError(meta.ErrRead, "parse MapKey Tag error", err)
 	}
 	mapKeyDesc := fd.Key()
-	isIntKey := (mapKeyDesc.Type() == proto.INT32) || (mapKeyDesc.Type() == proto.INT64) || (mapKeyDesc.Type() == proto.UINT32) || (mapKeyDesc.Type() == proto.UINT64)
+	// every non-string key kind prints a bare token and needs quotes (an int64 key already gets them under Int642String)
+	isIntKey := mapKeyDesc.Type() != proto.STRING && !(mapKeyDesc.Type() == proto.INT64 && self.opts.Int642String)
 	if isIntKey {
 		*out = append(*out, '"')
 	}
